@@ -1,5 +1,6 @@
 """C18 — Non-blocking sockets keep non-blocking semantics under the hook (structural clauses)."""
 from rules.common import start
+from rules import wave3
 from rules import nio
 
 
@@ -15,4 +16,7 @@ def run(tier):
         nio.restore_rule(run, f, "C18-RESTORE")
         nio.eagain_rule(run, f, "C18-EAGAIN")
         nio.fresh_mode_rule(run, f, "C18-FRESH-MODE")
+    # clauses added for the wave-2 seeds (rules/wave2.py; DESIGN 12a)
+    for _cfg, f in fx.items():
+        wave3.mode_writers_rule(run, f, "C18-MODE-WRITERS")
     return run.finish()
